@@ -470,12 +470,21 @@ DynRestatGraphs ==
              [St1(2, <<"dd">>, <<"o1">>, <<>>) EXCEPT !.mkdd = "dd"],
              [St1(3, <<"o3">>, ex3, <<"dd">>) EXCEPT !.dd = "dd", !.ddi = <<"s2">>, !.restat = r3],
              St1(4, <<"o4">>, <<"o3">>, <<>>) >>) : ex3 \in {<<"o1">>, <<"o1", "s2">>}, r3 \in BOOLEAN }
+\* a statement that is out of date only because its dependency record is gone (depfile deleted / deps log dropped) is
+\* downstream of a statement bound to a dyndep file that is rebuilt: the dyndep load re-scans it in the middle of the build
+DynDepsMissing ==
+  { Graph(<< [St1(1, <<"dd">>, <<"s1">>, <<>>) EXCEPT !.mkdd = "dd"],
+             [St1(2, <<"o2">>, <<"s2">>, <<"dd">>) EXCEPT !.dd = "dd"],
+             [St1(3, <<"o3">>, <<"s2">>, <<>>) EXCEPT !.im = <<"o2">>, !.deps = d, !.hdrs = <<"h">>],
+             St1(4, <<"o4">>, <<"o3">>, <<>>) >>) : d \in {"depfile", "gcc"} }
 DynVariants(gr) == {gr} \cup {[gr EXCEPT !.stmts = [i \in DOMAIN gr.stmts |-> IF i = k /\ gr.stmts[i].mkdd = "" THEN [gr.stmts[i] EXCEPT !.restat = TRUE] ELSE gr.stmts[i]]] : k \in DOMAIN gr.stmts}
 FamDyn(K, CH) ==
   UNION { {ScnT(gr, <<Build(Roots(gr), j, 1), c, Build(Roots(gr), j, 1), Build(Roots(gr), j, 1)>>, "dyn") : j \in {1, 2, 3}, c \in Pick(CH, Changes(gr))}
           \cup {ScnT(gr, <<Build(<<t>>, 2, 1), c, Build(Roots(gr), 2, 1), Build(Roots(gr), 2, 1)>>, "dyn") : t \in Pick(2, AllOutsG(gr)), c \in Pick(CH, Changes(gr))} :
           gr \in UNION {DynVariants(x) : x \in DynGraphs} }
   \cup UNION { {ScnT(gr, <<Build(Roots(gr), j, 1), [op |-> o, f |-> "s1"], Build(Roots(gr), j, 1), Build(Roots(gr), j, 1)>>, "dyn") : j \in {1, 2}, o \in {"touch", "edit"}} : gr \in DynRestatGraphs }
+  \cup UNION { {Scn(gr, <<Build(Roots(gr), 2, 1), (IF gr.stmts[3].deps = "depfile" THEN [op |-> "del", f |-> "o3.d"] ELSE [op |-> "dropdeps"]), [op |-> "edit", f |-> "h"], [op |-> "touch", f |-> "s1"],
+                          Build(Roots(gr), j, 1), Build(Roots(gr), j, 1)>>) : j \in {1, 2}} : gr \in DynDepsMissing }
   \cup {ScnT(DynDeep, <<Build(<<"out">>, j, 1), c, Build(<<"out">>, j, 1), Build(<<"out">>, j, 1), Build(Roots(DynDeep), 2, 1)>>, "dyn") :
           j \in {1, 2}, c \in {x \in Changes(DynDeep) : x.op \in {"touch", "edit"}}}
 
